@@ -10,7 +10,7 @@ trap 'git -C /repo worktree remove --force "$WT" 2>/dev/null; rm -rf "$WT"' EXIT
 cd "$(dirname "$0")/.."
 for p in $PROPS; do
   out=$(VERIF_REPO="$WT" timeout 3000 ./check "$p" --tier "${VERIF_TIER:-quick}" 2>&1); rc=$?
-  echo "== $p rc=$rc"; echo "$out" | grep -E "^(VIOLATION|KNOWN-FINDING|C[0-9]+ tier)" | head -8
+  echo "== $p rc=$rc"; echo "$out" | grep -E "^VIOLATION" | head -4; echo "$out" | grep -E "^(KNOWN-FINDING|C[0-9]+ tier)" | head -4
   # evidence of a run against a seeded tree must not stay behind as the property's evidence
   git checkout -q -- "evidence/$p.json" 2>/dev/null || true
 done
